@@ -97,6 +97,8 @@ struct ConnState {
     fail_next_query: bool,
     dead: bool,
     parses: u32,
+    /// log indices of queries that were answered with an ErrorResponse
+    errored: Vec<usize>,
     notify: Option<Arc<tokio::sync::Notify>>,
 }
 
@@ -219,6 +221,8 @@ async fn serve(srv: Srv, id: usize, mut s: DuplexStream, notify: Arc<tokio::sync
                         put_msg(&mut out, b'Z', if in_txn { b"T" } else { b"I" });
                     } else if c.fail_next_query {
                         c.fail_next_query = false;
+                        let idx = c.log.len() - 1;
+                        c.errored.push(idx);
                         let mut b = vec![];
                         for (f, val) in [(b'S', "ERROR"), (b'V', "ERROR"), (b'C', "XX000"), (b'M', "scripted failure")] {
                             b.push(f);
@@ -476,6 +480,15 @@ async fn run_case(case: &Case, srv: Srv, out: &mut Out) {
                 if let Some(at) = m.returned_at.take() {
                     out.labels.push("reuse".into());
                     let g = lock(&srv);
+                    if let Some(e) = g.conns[conn].errored.iter().find(|i| **i >= at) {
+                        let q = format!("{:?}", g.conns[conn].log[*e]);
+                        drop(g);
+                        fail!(
+                            "failed-check-client-handed-out",
+                            "connection {} answered its recycling check {} with an ErrorResponse and was handed out anyway",
+                            conn, q
+                        );
+                    }
                     let qs: Vec<String> = g.conns[conn].log[at..]
                         .iter()
                         .filter_map(|f| match f {
